@@ -61,11 +61,16 @@ let () = Reg.register "c15.sets" (fun inp out ->
   let verdict =
     if verdict = "ok" && m.m_sets <> [] && not (Sets.sets_certb t vals m.m_sets m.m_inputs)
     then "bad:closure-certificate-failed" else verdict in
-  (* side condition of C15_sets_exact_first_last: on models without reachable set nonterminals the generated system is,
-     at the first / last keys, the declarative one (proved-sound checker SetsGen.sets_gen_ok) *)
+  (* side condition of C15_sets_exact (all of any / first / last / precede / follow and the union / intersection /
+     complement trees of closed top-level expressions): on models without reachable set nonterminals the generated
+     system is the declarative one (proved-sound checker SetsGenAll.sets_gen_all_ok, which includes SetsGen.gen_keys_ok).
+     C15_SCOPE_LOG=1 prints per case: in scope?, top-level sets, top-level sets in the scope of the tree check *)
+  let in_scope = m.m_sets <> [] && SetsGen.sets_gen_scope t vals m.m_sets m.m_inputs in
+  if Sys.getenv_opt "C15_SCOPE_LOG" <> None then
+    Printf.eprintf "c15scope %d %d %d\n" (if in_scope then 1 else 0) (SL.length m.m_sets)
+      (SL.length (SL.filter SetsGenAll.tree_scope m.m_sets));
   let verdict =
-    if verdict = "ok" && m.m_sets <> [] && SetsGen.sets_gen_scope t vals m.m_sets m.m_inputs
-       && not (SetsGen.sets_gen_ok t vals m.m_sets m.m_inputs)
+    if verdict = "ok" && in_scope && not (SetsGenAll.sets_gen_all_ok t vals m.m_sets m.m_inputs)
     then "bad:generated-system-check-failed" else verdict in
   (model, verdict))
 
